@@ -338,7 +338,7 @@ ROUND10 = {
  "C11": "A failing member whose traceback text (its cause's message) not every serializer can write.",
  "C12": "The client-side pass keeps an unread streamed result in the variable that takes the next call's result.",
  "C13": "Every other tracked resource is an empty container; a housekeeping run that raises is a verdict.",
- "C14": "Every answer passes through one of the four serializers as a remote caller gets it; reading operations are asked twice and the first caller edits the uri it was handed.",
+ "C14": "Every answer passes through one of the four serializers as a remote caller gets it; reading operations are asked twice and the first caller edits the uri it was handed; a removal matching 520 names with failure points spread over all its storage statements.",
  "C15": "Bounded lock waits in virtual time with a storage slower than the configured timeout; the real auto-cleaner's sweep as a third party of the histories.",
  "C16": "Forced registration under the daemon's own id.",
  "C18": "Refusal at a daemon on a Unix domain socket.",
